@@ -28,6 +28,14 @@ EXTRA = [
     "start: NAME &&(NUMBER*) NEWLINE\n",
     "start: &&(NAME?) NUMBER NEWLINE\n",
     "start: &&([NAME]) [(NUMBER*)] NEWLINE\n",
+    # three and more items with the same default name (name, name_1, name_2 ...), also against a user-chosen name_1
+    "start: NAME NAME NAME NAME NEWLINE\n",
+    "start: '(' '[' ']' ')' NEWLINE | NUMBER NUMBER NUMBER { foo(number, number_1, number_2) }\n",
+    "start: name_1=NUMBER NAME NAME NAME NEWLINE | x=NAME x_1=NUMBER x=NAME x=NAME NEWLINE\n",
+    "start: a a a NEWLINE\na: NAME? [NUMBER] NAME? [NUMBER] NAME?\n",
+    # SOFT_KEYWORD in a grammar that declares no soft keyword; a soft keyword only
+    "start: SOFT_KEYWORD NAME NEWLINE | 'if' NUMBER NEWLINE\n",
+    "start: !SOFT_KEYWORD NAME NEWLINE | [SOFT_KEYWORD] NUMBER NEWLINE\n",
 ]
 
 
